@@ -107,8 +107,15 @@ Definition next_action (g : gates) (h : hints) (s : st) : option ev :=
   let a_cancel :=
     match find_idx (fun r => match snd r with RWantMu _ _ | RWantMu1 _ _ => true | _ => false end) (readers s) 0 with
     | Some i =>
+        (* only a call inside the range of the blocked pass: a hinted call tabled after the pass
+           began is cancelled by the NEXT pass, once this one has completed *)
+        let n := match nth_error (readers s) i with
+                 | Some (_, RWantMu _ n) | Some (_, RWantMu1 _ n) => n
+                 | _ => 0
+                 end in
         option_map (fun k => EvCancel i k)
-          (find (fun k => match nth_error (calls s) k with
+          (find (fun k => Nat.ltb k n &&
+                          match nth_error (calls s) k with
                           | Some cl => match c_pc cl with CAwait _ => true | _ => false end
                           | None => false
                           end) (h_cancel h))
